@@ -151,9 +151,12 @@ Definition run_hygienic (M : list mdef) (rs : list MacroModel.rule) (strata : li
 Definition ids_ok (M : list mdef) (rs : list MacroModel.rule) : bool :=
   forallb (fun d => forallb (wf_ident (OMac (mname d))) (ids_items (mbody d))) M
   && forallb (fun r => forallb (wf_ident OCall) (ids_rule r)) rs.
-Definition locals_bound_ok (M : list mdef) : bool :=
-  forallb (fun d => forallb (fun i => mem_str (iname i) (map iname (bv_items (mbody d)))) (ids_items (mbody d))) M.
+Definition locals_bound_ok (M : list mdef) : bool := forallb (wf_def_bound M) M.
+(* every macro local is bound by a direct item of its body (the hypothesis before binders through nested invocations were
+   admitted): reported so that the tie can count the programs that are inside the theorem only thanks to nested binders *)
+Definition locals_bound_directly (M : list mdef) : bool := forallb wf_def_bound_direct M.
 Definition wf_report (rk : nat -> nat) (HM : list nat) (M : list mdef) (rs : list MacroModel.rule) : list bool :=
   [ids_ok M rs; locals_bound_ok M;
    forallb (wf_head_def HM) M && forallb (fun r => forallb (fun m => memn m HM) (flat_map hinvs (rheads r))) rs;
-   wf_macros rk HM M && forallb (wf_rule HM) rs].
+   wf_macros rk HM M && forallb (wf_rule HM) rs;
+   locals_bound_directly M].
